@@ -15,12 +15,14 @@
   is a parameter (`Codec`): `str(np.float64(v))`/`float(text)`, `str(int)`/`int(text)`,
   `strftime`/`strptime`.  The theorems assume `Codec.Lawful` (reading the printed text gives the value back);
   that contract is trusted for CPython/numpy and sampled by the oracle (`float.hex` equality).
-  The benchmark-id attribute is kept at token level (vehicle ids, cost ids, scenario id, version): the
-  split on ':' / ',' and `ScenarioID.from_benchmark_id` are C13's subject; the writer's string is `benchString`.
+  The reader core (`decodeSol`) works on the benchmark id at token level (vehicle ids, cost ids, scenario id,
+  version); the string level is `benchString` (writer) and `decodeDoc`, which runs C13's character-level model of
+  `_parse_benchmark_id` / `ScenarioID.from_benchmark_id` (CRModel/BenchId.lean) on the attribute text.
 
   Core Lean only (the driver links this file).
 -/
 import CRModel.Basic
+import CRModel.BenchId
 namespace CR.Sol
 
 /-! ## enums (solution.py:59-94, 200-293) -/
@@ -297,6 +299,15 @@ def mkPPS (ppId : Int) (m : VModel) (vt : VType) (cf : Cost) (tr : Traj) : Res P
       else if !(supportedCosts m).contains cf then .error .other     -- SolutionException
       else .ok ⟨ppId, m, vt, cf, T, tr⟩
 
+/-- the `trajectory` setter (:428-434): the type is re-derived WITHOUT the vehicle model (exact attribute count) -/
+def setTrajectory (p : PPS) (tr : Traj) : Res PPS :=
+  match tr.states with
+  | [] => .error .index
+  | s0 :: _ =>
+    match getStateType (attrsOf s0) Option.none with
+    | .error e => .error e
+    | .ok T => if !validVehicleModel T p.model then .error .other else .ok { p with ttype := T, traj := tr }
+
 /-- `{s.planning_problem_id: s for s in planning_problem_solutions}`: a later solution with the same id
     replaces the earlier one in place. -/
 def dictInsert (d : List PPS) (p : PPS) : List PPS :=
@@ -349,13 +360,14 @@ structure RootNode where
 /-- `vehicle_id` (:445-454) -/
 def vehicleId (m : VModel) (vt : VType) : String := m.name ++ toString vt.value
 
-/-- `Solution.benchmark_id` (:507-536), the string the writer stores -/
-def benchString (b : Bench) : String :=
-  let brack (l : List String) : String :=
-    match l with
-    | [a] => a
-    | _ => "[" ++ ",".intercalate l ++ "]"
-  brack b.vids ++ ":" ++ brack b.cids ++ ":" ++ b.scen ++ ":" ++ b.ver
+/-- `Solution.benchmark_id` (:507-536) as characters: `ids[0] if len(ids) == 1 else "[%s]" % ",".join(ids)` twice,
+    then scenario id and version, joined by ':' (the bracket/join functions are C13's) -/
+def benchChars (b : Bench) : List Char :=
+  CR.BenchId.bracket (b.vids.map String.toList) ++ ':' :: CR.BenchId.bracket (b.cids.map String.toList) ++
+    ':' :: b.scen.toList ++ ':' :: b.ver.toList
+
+/-- the string the writer stores in the `benchmark_id` attribute -/
+def benchString (b : Bench) : String := String.ofList (benchChars b)
 
 /-- `_create_sub_element`: `str(np.float64(value) if isinstance(value, float) else value)` -/
 def subText (c : Codec) : FVal → Res String
@@ -567,6 +579,29 @@ def decodeSol (c : Codec) (r : RootNode) : Res Solution :=
     | .error e => .error e
     | .ok ps => mkSolution c r.bench.scen r.bench.ver ps d t pn
 
+/-- the root element as the document has it: the benchmark id is one attribute string -/
+structure RootDoc where
+  tag : String
+  bid : String
+  attrs : List (String × String)
+  trajs : List TrajNode
+  deriving DecidableEq, Repr, Inhabited
+
+def toDoc (r : RootNode) : RootDoc := ⟨r.tag, benchString r.bench, r.attrs, r.trajs⟩
+
+/-- `_parse_solution` (:667-675) at string level: header, then `_parse_benchmark_id` on the attribute text (C13's
+    character-level model, with the ISO-3166 table `cs`), then the trajectories, then `Solution(...)` -/
+def decodeDoc (c : Codec) (cs : List (List Char)) (d : RootDoc) : Res Solution :=
+  match parseHeader c d.attrs with
+  | .error e => .error e
+  | .ok (dt, t, pn) =>
+    match CR.BenchId.parseBenchmarkId cs d.bid.toList with
+    | .error e => .error e
+    | .ok (vids, cids, i) =>
+      match parseNodes c (vids.map String.ofList) (cids.map String.ofList) d.trajs with
+      | .error e => .error e
+      | .ok ps => mkSolution c (String.ofList (CR.BenchId.print i)) (String.ofList i.version) ps dt t pn
+
 /-! ## what the round trip is expected to return -/
 
 /-- the state as the reader's class holds it: the type's attributes, class order -/
@@ -584,6 +619,29 @@ def normSol (auto : Option String) (s : Solution) : Solution :=
   { s with pps := s.pps.map normPPS,
            date := s.date.map (fun d => ⟨d.sec, 0⟩),
            proc := if s.proc = some "auto" then auto else s.proc }
+
+/-! ## the number tokens that occur in a solution -/
+
+def fvalToks : FVal → List Tok
+  | .num v => [v]
+  | .vec a b => [a, b]
+  | _ => []
+
+def stateToks (st : State) : List Tok := st.flatMap fun p => fvalToks p.2
+
+def ppsToks (p : PPS) : List Tok := p.traj.states.flatMap stateToks
+
+/-- every number token of the solution: all state values and the computation time -/
+def numToks (s : Solution) : List Tok := s.pps.flatMap ppsToks ++ s.ct.toList
+
+/-- every time step of the solution -/
+def timeSteps (s : Solution) : List Int := s.pps.flatMap fun p => p.traj.states.map timeOf
+
+/-- the codec reads back what it printed, for the values that occur in `s` (numbers, date) and for every integer -/
+structure Codec.LawfulFor (c : Codec) (s : Solution) : Prop where
+  num : ∀ v ∈ numToks s, c.prsNum (c.fmtNum v) = .ok v
+  int : ∀ i, c.prsInt (c.fmtInt i) = .ok i
+  date : ∀ d, s.date = some d → c.prsDate (c.fmtDate d.sec) = some d.sec
 
 /-! ## admissible solutions (what the constructors accept) -/
 
@@ -725,80 +783,144 @@ def nondecr : List Nat → Bool
 def inSchemaOrder (sch : Schema) (tags : List String) : Bool :=
   tags.all (fun t => (schemaIndex sch t).isSome) && nondecr (tags.map fun t => (schemaIndex sch t).getD 0)
 
-/-! ## concrete lexical checkers (used by the driver on the real text) -/
+/-! ## concrete lexical checkers (used by the driver on the real text), on character lists -/
+
+def isWs (c : Char) : Bool := c == ' ' || c == '\t' || c == '\n' || c == '\r'
+
+/-- XSD `whiteSpace = collapse` at both ends -/
+def trimL (cs : List Char) : List Char := ((cs.dropWhile isWs).reverse.dropWhile isWs).reverse
 
 def allDigits (cs : List Char) : Bool := !cs.isEmpty && cs.all Char.isDigit
 
+/-- drop one leading `-` -/
+def dropMinus : List Char → List Char
+  | [] => []
+  | c :: r => if c == '-' then r else c :: r
+
+/-- drop one leading `+` or `-` -/
 def stripSign : List Char → List Char
-  | '+' :: r => r
-  | '-' :: r => r
-  | r => r
+  | [] => []
+  | c :: r => if c == '+' || c == '-' then r else c :: r
+
+def natOf (cs : List Char) : Nat := Nat.ofDigitChars 10 cs 0
 
 /-- xs:int: optional sign, digits, within 32 bits -/
-def isXsInt (s : String) : Bool :=
-  let cs := s.trimAscii.toString.toList
-  let cs' := match cs with | '+' :: r => r | r => r
-  allDigits (stripSign cs) &&
-  match (String.ofList cs').toInt? with
-  | some i => decide (-2147483648 ≤ i ∧ i ≤ 2147483647)
-  | Option.none => false
+def xsIntL : List Char → Bool
+  | [] => false
+  | c :: r =>
+    if c == '-' then allDigits r && decide (natOf r ≤ 2147483648)
+    else if c == '+' then allDigits r && decide (natOf r ≤ 2147483647)
+    else allDigits (c :: r) && decide (natOf (c :: r) ≤ 2147483647)
+
+def isXsInt (s : String) : Bool := xsIntL (trimL s.toList)
 
 /-- decimal mantissa `d+`, `d+.d*`, `.d+` -/
 def isMantissa (cs : List Char) : Bool :=
   let ip := cs.takeWhile Char.isDigit
-  let rest := cs.dropWhile Char.isDigit
-  match rest with
+  match cs.dropWhile Char.isDigit with
   | [] => !ip.isEmpty
-  | '.' :: fr => fr.all Char.isDigit && (!ip.isEmpty || !fr.isEmpty)
-  | _ => false
+  | c :: fr => c == '.' && fr.all Char.isDigit && (!ip.isEmpty || !fr.isEmpty)
 
-/-- xs:float lexical space: INF, -INF, NaN, or mantissa with optional exponent -/
-def isXsFloat (s : String) : Bool :=
-  let t := s.trimAscii.toString
-  if t == "INF" || t == "-INF" || t == "NaN" then true else
-  let cs := stripSign t.toList
-  let m := cs.takeWhile (fun ch => ch != 'e' && ch != 'E')
-  let r := cs.dropWhile (fun ch => ch != 'e' && ch != 'E')
-  isMantissa m &&
-  match r with
+def notE (ch : Char) : Bool := ch != 'e' && ch != 'E'
+
+/-- exponent part of an xs:float literal: nothing, or `e`/`E` followed by an optionally signed integer -/
+def xsExpOK : List Char → Bool
   | [] => true
   | _ :: ex => allDigits (stripSign ex)
 
-def natOf (cs : List Char) : Nat := cs.foldl (fun a ch => 10 * a + (ch.toNat - '0'.toNat)) 0
+/-- mantissa then exponent -/
+def xsUnsignedOK (cs : List Char) : Bool := isMantissa (cs.takeWhile notE) && xsExpOK (cs.dropWhile notE)
+
+/-- xs:float lexical space: INF, -INF, NaN, or mantissa with optional exponent -/
+def xsFloatL (t : List Char) : Bool :=
+  if t == ['I', 'N', 'F'] || t == ['-', 'I', 'N', 'F'] || t == ['N', 'a', 'N'] then true
+  else xsUnsignedOK (stripSign t)
+
+def isXsFloat (s : String) : Bool := xsFloatL (trimL s.toList)
 
 def daysIn (y m : Nat) : Nat :=
   if m = 2 then (if (y % 4 = 0 ∧ y % 100 ≠ 0) ∨ y % 400 = 0 then 29 else 28)
   else if m = 4 ∨ m = 6 ∨ m = 9 ∨ m = 11 then 30 else 31
 
-/-- xs:dateTime without fraction / time zone, as the writer prints it: `YYYY-MM-DDTHH:MM:SS`
-    (a fraction `.d+` and a zone `Z` / `±hh:mm` are accepted too) -/
-def isXsDateTime (s : String) : Bool :=
-  let cs := s.toList
-  let cs := match cs with | '-' :: r => r | r => r
-  let y := cs.takeWhile Char.isDigit
-  let r := cs.dropWhile Char.isDigit
-  decide (4 ≤ y.length) && (y.length == 4 || y.head? != some '0') && natOf y != 0 &&
-  match r with
-  | '-' :: m1 :: m2 :: '-' :: d1 :: d2 :: 'T' :: h1 :: h2 :: ':' :: n1 :: n2 :: ':' :: s1 :: s2 :: tl =>
-    [m1, m2, d1, d2, h1, h2, n1, n2, s1, s2].all Char.isDigit &&
-    (let mo := natOf [m1, m2]; let d := natOf [d1, d2]; let h := natOf [h1, h2]
-     let mi := natOf [n1, n2]; let se := natOf [s1, s2]
-     decide (1 ≤ mo ∧ mo ≤ 12 ∧ 1 ≤ d ∧ d ≤ daysIn (natOf y) mo ∧
-             (h ≤ 23 ∨ (h = 24 ∧ mi = 0 ∧ se = 0)) ∧ mi ≤ 59 ∧ se ≤ 59)) &&
-    (let tl := match tl with
-       | '.' :: fr => if (fr.takeWhile Char.isDigit).isEmpty then ['!'] else fr.dropWhile Char.isDigit
-       | t => t
-     match tl with
-     | [] => true
-     | ['Z'] => true
-     | [sg, a, b, ':', c', d'] => (sg == '+' || sg == '-') && [a, b, c', d'].all Char.isDigit &&
-         decide (natOf [a, b] ≤ 13 ∧ natOf [c', d'] ≤ 59 ∨ (natOf [a, b] = 14 ∧ natOf [c', d'] = 0))
-     | _ => false)
+/-- the `-MM-DDThh:mm:ss` part with its range checks; returns what follows it -/
+def dateTail (y : Nat) : List Char → Option (List Char)
+  | a :: m1 :: m2 :: b :: d1 :: d2 :: t :: h1 :: h2 :: c1 :: n1 :: n2 :: c2 :: s1 :: s2 :: tl =>
+    if a == '-' && b == '-' && t == 'T' && c1 == ':' && c2 == ':' &&
+       [m1, m2, d1, d2, h1, h2, n1, n2, s1, s2].all Char.isDigit &&
+       (let mo := natOf [m1, m2]; let d := natOf [d1, d2]; let h := natOf [h1, h2]
+        let mi := natOf [n1, n2]; let se := natOf [s1, s2]
+        decide (1 ≤ mo ∧ mo ≤ 12 ∧ 1 ≤ d ∧ d ≤ daysIn y mo ∧
+                (h ≤ 23 ∨ (h = 24 ∧ mi = 0 ∧ se = 0)) ∧ mi ≤ 59 ∧ se ≤ 59))
+    then some tl else Option.none
+  | _ => Option.none
+
+/-- optional fraction `.d+` and zone `Z` / `±hh:mm` -/
+def zoneOK (tl : List Char) : Bool :=
+  let tl := match tl with
+    | '.' :: fr => if (fr.takeWhile Char.isDigit).isEmpty then ['!'] else fr.dropWhile Char.isDigit
+    | t => t
+  match tl with
+  | [] => true
+  | ['Z'] => true
+  | [sg, a, b, ':', c', d'] => (sg == '+' || sg == '-') && [a, b, c', d'].all Char.isDigit &&
+      decide (natOf [a, b] ≤ 13 ∧ natOf [c', d'] ≤ 59 ∨ (natOf [a, b] = 14 ∧ natOf [c', d'] = 0))
   | _ => false
+
+/-- xs:dateTime: `-?YYYY+-MM-DDThh:mm:ss(.d+)?(Z|±hh:mm)?` -/
+def xsDateTimeL (cs : List Char) : Bool :=
+  let cs := dropMinus cs
+  let y := cs.takeWhile Char.isDigit
+  decide (4 ≤ y.length) && (y.length == 4 || y.head? != some '0') && natOf y != 0 &&
+  match dateTail (natOf y) (cs.dropWhile Char.isDigit) with
+  | some tl => zoneOK tl
+  | Option.none => false
+
+def isXsDateTime (s : String) : Bool := xsDateTimeL s.toList
 
 def Lex.xsd : Lex := ⟨isXsFloat, isXsInt, isXsDateTime⟩
 
-/-! ## the codec the driver runs with: tokens are written as they are -/
+/-! ## the texts Python writes (contract of `str(float)` / `str(int)` / `strftime`; checked on every written
+       document by the correspondence) -/
+
+/-- exponent part of `repr(float)`: nothing, or `e`, a sign, digits -/
+def pyExp : List Char → Bool
+  | [] => true
+  | c :: sg :: ds => c == 'e' && (sg == '+' || sg == '-') && allDigits ds
+  | _ => false
+
+/-- `str(x)` of a finite float or an int: optional `-`, digits, optional `.digits`, optional `e±digits`
+    (`inf` / `nan` are not of this form: the property speaks of finite values) -/
+def pyTail : List Char → Bool
+  | [] => true
+  | c :: r2 =>
+    if c == '.' then !(r2.takeWhile Char.isDigit).isEmpty && pyExp (r2.dropWhile Char.isDigit)
+    else pyExp (c :: r2)
+
+def pyUnsigned (u : List Char) : Bool :=
+  !(u.takeWhile Char.isDigit).isEmpty && pyTail (u.dropWhile Char.isDigit)
+
+def pyNumL (cs : List Char) : Bool := pyUnsigned (dropMinus cs)
+
+/-- `strftime("%Y-%m-%dT%H:%M:%S")` of a date with a four-digit year: `YYYY-MM-DDThh:mm:ss`, fields in range -/
+def pyDateL (cs : List Char) : Bool :=
+  match cs with
+  | y1 :: y2 :: y3 :: y4 :: rest =>
+    [y1, y2, y3, y4].all Char.isDigit && natOf [y1, y2, y3, y4] != 0 &&
+    dateTail (natOf [y1, y2, y3, y4]) rest == some []
+  | _ => false
+
+/-- the decimal-text codec: a number token IS the text Python writes for the value; the parser accepts exactly the
+    texts of that grammar and returns them (reading inverts writing on them) -/
+def Codec.py : Codec where
+  fmtNum := id
+  prsNum := fun s => if pyNumL s.toList then .ok s else .error .value
+  fmtInt := Int.repr
+  prsInt := fun s => match s.toInt? with | some i => .ok i | Option.none => .error .value
+  fmtDate := id
+  prsDate := fun s => if pyDateL s.toList then some s else Option.none
+  isPos := fun s => pyNumL s.toList && !(s.toList.head? == some '-') && s.toList.any (fun c => c.isDigit && c != '0')
+
+/-! ## the identity codec: tokens are written as they are -/
 
 def Codec.ident : Codec where
   fmtNum := id
